@@ -23,8 +23,10 @@
    (H2) `stmt_moves_ok`: whenever an INSERT moves the root of its table, the sys_pages row that
         updatePageTable rewrites (found by table name) is the first live sys_pages row holding the
         old root offset - the row redoRootMove rewrites during replay. True as long as no two live
-        catalog rows carry the same file_offset; a user can break it only by writing to sys_pages
-        directly (C02_needs_moves_ok). *)
+        catalog rows carry the same file_offset. (Found by this proof: with DML on sys_pages a user
+        could create two rows with one offset, and recovery then rewrote the wrong row; the engine
+        now refuses INSERT / UPDATE / DELETE on the catalog tables - /repo c7d1b36, modelled by
+        `is_sys_table` - so only CREATE TABLE and root moves write offsets, always fresh ones.) *)
 From Coq Require Import List NArith ZArith String.
 From Mkdb Require Import Model.Engine Proofs.TreeProofs Proofs.StoreInv Proofs.CrashBase Proofs.CrashPages
   Proofs.CrashRedo Proofs.CrashLog Proofs.CrashMain.
@@ -120,7 +122,9 @@ Print Assumptions C02_recovery_total.
    leaves the same tables as on the uncrashed cache, row ids compared up to an order-preserving
    renaming. What is proved instead: the theorems above under `hist_ok` (both parts of which are
    necessary, see the two Examples at the end), and the continuation clause in the form "the
-   recovered system is again a reachable system of the same theorems" (C02_crash_cycles). ---- *)
+   recovered system is again a reachable system of the same theorems" (C02_crash_cycles).
+   C02_needs_atomicity: the full statement is FALSE in the model without (H1) - that is finding
+   F11a seen through a crash. ---- *)
 Definition only_c02_events (evs : list event) : Prop :=
   Forall (fun ev => match ev with EvStmt _ | EvFlush | EvCrash => True | _ => False end) evs.
 
@@ -187,4 +191,19 @@ Proof.
   vm_compute in E. inversion E; subst. eexists _, _. split; [reflexivity|].
   split; [hist_tac|]. split; [vm_compute; discriminate|].
   eexists. split; [vm_compute; reflexivity|]. split; vm_compute; reflexivity.
+Qed.
+
+(* (H1) is necessary: F11a (a 2-row INSERT whose second row is out of range keeps row 1 in the
+   cache, unlogged) followed by a crash loses the row that SELECT showed before the crash *)
+Definition ex_f11 : list event :=
+  [EvStmt (SCreateTable "t" [mkColDef "a" STNumeric]);
+   EvStmt (SInsert "t" [] [[VInt 1]; [VInt 2147483648]])].
+
+Example C02_needs_atomicity :
+  exists y os y', run_events init_sys ex_f11 = (SOk y, os) /\ only_c02_events ex_f11 /\
+                  recover y = Ok y' /\ abs (mem y') <> abs (mem y).
+Proof.
+  destruct (run_events init_sys ex_f11) as [fin os] eqn:E.
+  vm_compute in E. inversion E; subst. eexists _, _, _. split; [reflexivity|].
+  split; [repeat constructor|]. split; [vm_compute; reflexivity|]. vm_compute. discriminate.
 Qed.
